@@ -58,6 +58,7 @@ G = _Gens()
 
 def reset():
     G.reset()
+    POSITIVE_KEYS.clear()
 
 
 def _fr(x):
@@ -640,11 +641,34 @@ def _content_split(p):
     return c, Poly({m: v / c for m, v in p.t.items()})
 
 
+POSITIVE_KEYS = set()  # keys of (content-normalised) polynomials a scenario declares positive (e.g. det C of a symmetric positive definite C)
+
+
+def declare_positive(p):
+    c, q = _content_split(P(p))
+    if c < 0:
+        raise ValueError("declare_positive: negative content")
+    POSITIVE_KEYS.add(_key(q))
+
+
+def _pullable(g, e):
+    """may the factor g**e be taken out of a root?  symbols as before; a root atom B**(k/n) is positive whenever it is real; an atom with
+    an integer exponent only if its base polynomial has been declared positive"""
+    k = G.info[g]["kind"]
+    if k == "sym":
+        return True
+    if k == "pow":
+        if isinstance(e, Fraction) and e.denominator != 1:
+            return True
+        return _key(G.info[g]["arg"]) in POSITIVE_KEYS
+    return False
+
+
 def _mono_content(p):
-    """largest monomial in sym generators dividing every term of p: returns (mono Poly, p / mono)"""
+    """largest monomial in sym generators (and positive root atoms) dividing every term of p: returns (mono Poly, p / mono)"""
     common = None
     for m in p.t:
-        d = {g: e for g, e in m if g > 0 and G.info[g]["kind"] == "sym"}
+        d = {g: e for g, e in m if g < 0 or _pullable(g, e)}  # g < 0: roots of primes (positive constants)
         if common is None:
             common = d
         else:
@@ -1101,7 +1125,63 @@ def explog_normal(p):
     return out
 
 
+PROBE = [True]
+
+
 def is_zero(p):
+    """identically zero modulo the relations of pow atoms.  The relation test is sound for "zero" and exact for polynomials; with root atoms
+    it is incomplete (it does not know (a b)**e == a**e b**e for positive a, b).  A "not zero" verdict on an expression with root atoms
+    is therefore probed numerically (80 digits, several generic points): if the expression vanishes at every point where it can be
+    evaluated, the verdict is withdrawn (Undecided) instead of being reported as a difference"""
+    r = _is_zero_rel(p)
+    if r or not PROBE[0]:
+        return r
+    p = P(p)
+    if not _pow_gens(p):
+        return False
+    if _probe_vanishes(p):
+        raise Undecided("normal form incomplete: structurally distinct radicals, numerically zero at generic points")
+    return False
+
+
+def _probe_vanishes(p):
+    import decimal
+
+    syms = sorted(g for g in all_syms(p) if g not in NUMERIC)
+    ctx = decimal.Context(prec=80)
+    D = decimal.Decimal
+    hits = 0
+    for trial in range(6):
+        point = {}
+        for k, g in enumerate(syms):
+            name = str(G.info[g].get("name", ""))
+            # points of several shapes: all of order one; "diagonal-like" names (two equal trailing digits) large, the others small; ...
+            h = (k * 7 + trial * 13 + 3) % 17
+            if trial % 3 == 0:
+                v = Fraction(20 + h, 17)
+            elif trial % 3 == 1:
+                diag = len(name) >= 2 and name[-1].isdigit() and name[-2:] in ("00", "11", "22")
+                diag = diag or (name.endswith("]") and len(set(name[name.find("[") + 1:-1].split(",")[:2])) == 1)
+                v = Fraction(30 + h, 20) if diag else Fraction(1 + h, 90)
+            else:
+                v = Fraction(1 + h, 23 + trial)
+            point[g] = ctx.divide(D(v.numerator), D(v.denominator))
+        try:
+            val = const_decimal(p, prec=80, point=point)
+            scale = D(0)
+            for m, c in p.t.items():
+                scale = ctx.add(scale, abs(const_decimal(Poly({m: c}), prec=80, point=point)))
+        except (Undecided, decimal.DecimalException, ZeroDivisionError, OverflowError):
+            continue
+        if scale == 0:
+            continue
+        if abs(val) > scale * D(10) ** -55:
+            return False
+        hits += 1
+    return hits >= 2
+
+
+def _is_zero_rel(p):
     """identically zero modulo the relations of pow atoms"""
     p = P(p)
     if not p.t:
@@ -1135,7 +1215,7 @@ def is_zero(p):
         for n, d in byp.items():
             q = Poly({m: c for m, c in d.items() if c})
             tot = tot + (q * power(B, n) if n else q)
-        if not is_zero(tot):
+        if not _is_zero_rel(tot):
             return False
     return True
 
@@ -1475,7 +1555,7 @@ def decimal_sincos(x, ctx):
     return s, c
 
 
-def const_decimal(p, prec=80):
+def const_decimal(p, prec=80, point=None):
     """value of a *constant* ring element (no symbols; roots of constants, pow / Abs / Exp / Log / Sqrt atoms of constants allowed) as a
     Decimal with `prec` significant digits; Undecided for anything else.  Used only to *separate* two constants (a difference that is
     far from zero at 80 digits is not zero)."""
@@ -1532,6 +1612,8 @@ def const_decimal(p, prec=80):
                     raise Undecided("no decimal evaluation of %s" % fn)
             elif k == "sym" and g in NUMERIC:
                 v = NUMERIC[g](ctx)
+            elif k == "sym" and point is not None and g in point:
+                v = point[g]
             else:
                 raise Undecided("no decimal evaluation of a %s atom" % k)
         cache[g] = v
